@@ -175,6 +175,20 @@ def observe_eval(c):
     r_outs = [reuse('o', 'evaluate_circuit_outputs(reused-dict)', c.evaluate_circuit_outputs, x) for x in rows]
     r_full = [reuse('f', 'evaluate_full_circuit(reused-dict)', c.evaluate_full_circuit, x) for x in rows]
     r_circ = [reuse('c', 'evaluate_circuit(reused-dict)', c.evaluate_circuit, x) for x in rows]
+    # bench conversion is one of the gate-interpreting parts of the library: the converted copy
+    # must compute the same outputs (only judged when the conversion is defined: >= 1 input)
+    bench_rows = None
+    if n >= 1:
+        import copy as _copy
+
+        def _bench():
+            cb = _copy.copy(c)
+            cb.into_bench()
+            return [list(cb.evaluate(list(x))) for x in rows]
+
+        bt = guard('into_bench', _bench)
+        if bt is not None:
+            bench_rows = _rowsets(bt, len(outs), bad, 'into_bench')
     tt = guard('get_truth_table', lambda: c.get_truth_table())
     gtt = guard('get_gates_truth_table', lambda: c.get_gates_truth_table())
     single = []
@@ -210,6 +224,7 @@ def observe_eval(c):
         'full': _table(o_full, labels),
         'circ': _table(o_circ, labels),
         'gtt': gtab,
+        **({'bench': bench_rows} if bench_rows is not None else {}),
         'outs_r': _table(r_outs, outs),
         'full_r': _table(r_full, labels),
         'circ_r': _table(r_circ, labels),
